@@ -806,3 +806,96 @@ _srv("C10",
      exh={"quick": [dict(MaxMsgs=4, MaxOpen=1, HiVals=(0,), LoVals=(1,), OpShapes="nh", StampModes=("last",), WithSendFail=True)],
           "thorough": [dict(MaxMsgs=5, MaxOpen=2, HiVals=(0,), LoVals=(1,), OpShapes="nh", StampModes=("last",), WithSendFail=True)]},
      random_cfg=_rnd(["cut"], 120, 1200, length=60))
+
+
+# ---------------------------------------------------------------------------
+# Reconciler family (C15): GribiReconcile / GribiReconcile_MC / GribiReconcileTrace
+
+def recon_cfg(NIs=("DEFAULT", "vrf1"), TOnly=(), NHK=("1", "2"), NHGK=("1",), NHLists="L_1_12", TopK="T_v4", GNIs=("", "DEFAULT"),
+              PLs=("a", "b"), MaxBuild=2, EmitOn=False, view=True, invariants=True):
+    lines = ["SPECIFICATION MCSpec", "CONSTANTS", '  DefaultNI = "DEFAULT"', f"  NIs = {tlaset(NIs)}", f"  TOnly = {tlaset(TOnly)}",
+             f"  NHK = {tlaset(NHK)}", f"  NHGK = {tlaset(NHGK)}", f"  NHLists <- {NHLists}", f"  TopK <- {TopK}",
+             f"  GNIs = {tlaset(GNIs)}", f"  PLs = {tlaset(PLs)}", f"  MaxBuild = {MaxBuild}", f"  EmitOn = {str(EmitOn).upper()}"]
+    if view:
+        lines.append("VIEW View")
+    if invariants:
+        lines.append("INVARIANTS EachOpSucceeds Converges EqualGivesNothing CountersStayExact")
+    if EmitOn:
+        lines.append("INVARIANTS Emit")
+    lines.append("CHECK_DEADLOCK FALSE")
+    return "\n".join(lines) + "\n"
+
+
+def recon_attr(comp, ev, rec):
+    if comp.startswith("recon"):
+        return {"C15"}
+    return rib_attr(comp, ev, rec)
+
+
+def recon_stats(path, prop):
+    segs = events = 0
+    distinct, nontrivial = set(), set()
+    samples = []
+    with open(path) as fh:
+        for line in fh:
+            events += 1
+            if not line.startswith('{"base"') and '"ev":"recon"' not in line[:200]:
+                if line.startswith('{"ev":"reset"'):
+                    segs += 1
+                continue
+            e = json.loads(line)
+            if e.get("ev") != "recon":
+                continue
+            n = sum(len(e["ops"][a][b]) for a in ("add", "rep", "del") for b in ("nh", "nhg", "top"))
+            key = vlib.sha(json.dumps([e["intended"], e["ops"]], sort_keys=True))
+            distinct.add(key)
+            if n >= 2 and any(e["ops"]["del"][b] for b in ("nh", "nhg", "top")) or (n >= 2 and any(e["ops"]["rep"][b] for b in ("nh", "nhg", "top"))):
+                nontrivial.add(key)
+                if len(samples) < 3:
+                    samples.append({"intended": e["intended"], "ops": e["ops"], "base": e["base"]})
+    return dict(segments=segs, events=events, distinct=len(distinct), nontrivial=len(nontrivial), samples=samples)
+
+
+class ReconFamily(RIBFamily):
+    MC_MODULE = "GribiReconcile_MC"
+    TRACE_MODULE = "GribiReconcileTrace"
+    TRACE_SPEC = "RTraceSpec"
+    VH_CMD = "recon-run"
+    FAMILY = "recon"
+
+    @staticmethod
+    def cfg(**kw):
+        return recon_cfg(**kw)
+
+    @staticmethod
+    def attr(comp, ev, rec):
+        return recon_attr(comp, ev, rec)
+
+    @staticmethod
+    def stats(path, prop):
+        return recon_stats(path, prop)
+
+    @staticmethod
+    def to_inputs(evs):
+        return [strip_state(e) for e in evs]
+
+    def vh_args(self, ctx, rc):
+        return ["-random", str(rc["n"])]
+
+    def rule(self):
+        return ("one case = a pair (intended, target) of real RIBs built by TLC-emitted or seeded random operation sequences, reconciled by the real "
+                "reconciler and the result applied to the real target; non-trivial = at least two operations including a delete or a replace; distinct by (intended, operation sets)")
+
+    def replay(self, ctx, path):
+        raise Infra("replay of reconcile cases: re-run ./check C15 with the seed recorded in the replay file")
+
+
+REGISTRY["C15"] = ReconFamily("C15",
+    mc={"quick": [dict(MaxBuild=2, TOnly=("vrf1",)), dict(MaxBuild=2)],
+        "thorough": [dict(MaxBuild=3), dict(MaxBuild=3, TOnly=("vrf1",), NHK=("1",))]},
+    sims={"quick": [(dict(MaxBuild=5, NHGK=("1", "2"), TopK="T_2", GNIs=("", "DEFAULT", "vrf1")), 500, 300),
+                    (dict(MaxBuild=4, TOnly=("vrf1",), TopK="T_2"), 300, 300)],
+          "thorough": [(dict(MaxBuild=6, NHGK=("1", "2"), TopK="T_2", GNIs=("", "DEFAULT", "vrf1")), 3000, 300),
+                       (dict(MaxBuild=5, TOnly=("vrf1",), TopK="T_2"), 2000, 300)]},
+    exh={"quick": [dict(MaxBuild=1, PLs=("a",))], "thorough": [dict(MaxBuild=2, PLs=("a",), NHK=("1",))]},
+    random_cfg={"quick": {"n": 400}, "thorough": {"n": 5000}})
